@@ -2,7 +2,7 @@
 from .. import container
 from ..core import Sub, build_machine, run_history
 
-PROP = {'id': 'C03', 'level': 'exploration', 'technique': 'Hypothesis RuleBasedStateMachine generating add / remove / replace / setter histories (several write contexts, table lengths 1..16, pre-populated images incl. opaque block types); after every successful operation the raw file is parsed by an independent reader and checked for well-formedness', 'level_text': "Exploration of operation histories: the machine starts from Tdf.new or from a compact image written by the reference codec (N in 1..16, 0..N live blocks of the nine writable and seven undecodable types, garbage in don't-care bytes), issues operations the model predicts to succeed and parses the file with reftdf.parse_container after each one: signature/version/N unchanged, every live range after the table and inside the file, no two live ranges overlapping, unused slots of size 0.", 'level_note': 'Trusted: reftdf.parse_container and well_formed_problems. Initial images: Tdf.new, compact images, images with padding between blocks (well-formed but not compact, as foreign files may be) and the BTS capture itself (2.1 MB, eight blocks); free slots always trail and point at end of data. Files with an unused slot between live blocks or out-of-order blocks are outside the documented add algorithm and not generated here (C07 covers the hole case). If an operation the model expects to succeed raises, the history is abandoned here and reported by C11.', 'design_ref': 'DESIGN.md section 4, C03', 'rule': 'case = {init image, ops}; non-trivial = the history removes a non-last live block and later adds one, or fills the table completely; distinct by sha1 of the history', 'assumptions': ['live blocks of the initial image are in table order with trailing free slots pointing at end of data']}
+PROP = {'id': 'C03', 'level': 'exploration', 'technique': 'Hypothesis RuleBasedStateMachine generating add / remove / replace / setter histories (several write contexts, table lengths 1..16, pre-populated images incl. opaque block types); after every successful operation the raw file is parsed by an independent reader and checked for well-formedness; enumerated scripts (equal sizes, fill levels, 2^k tails, foreign images, two long-lived objects, contexts left by the caller\'s exception)', 'level_text': "Exploration of operation histories: the machine starts from Tdf.new or from a compact image written by the reference codec (N in 1..16, 0..N live blocks of the nine writable and seven undecodable types, garbage in don't-care bytes), issues operations the model predicts to succeed and parses the file with reftdf.parse_container after each one: signature/version/N unchanged, every live range after the table and inside the file, no two live ranges overlapping, unused slots of size 0.", 'level_note': 'Trusted: reftdf.parse_container and well_formed_problems. Initial images: Tdf.new, compact images, images with padding between blocks (well-formed but not compact, as foreign files may be) and the BTS capture itself (2.1 MB, eight blocks); free slots always trail and point at end of data. Files with an unused slot between live blocks or out-of-order blocks are outside the documented add algorithm and not generated here (C07 covers the hole case). If an operation the model expects to succeed raises, the history is abandoned here and reported by C11.', 'design_ref': 'DESIGN.md section 4, C03', 'rule': 'case = {init image, ops}; non-trivial = the history removes a non-last live block and later adds one, or fills the table completely; distinct by sha1 of the history', 'assumptions': ['live blocks of the initial image are in table order with trailing free slots pointing at end of data']}
 
 GROUPS = {"C03"}
 REFUSALS = False
